@@ -13,6 +13,7 @@ from ..utils import (
     portable_hash, reservoir_sample_and_size, str_half_width
 )
 from .column import parse
+from .expressions.fields import FieldAsExpression
 from .functions import array, collect_set, count, lit, map_from_arrays, rand, struct
 from .internal_utils.column import resolve_column
 from .internal_utils.joins import (
@@ -486,7 +487,14 @@ class DataFrameInternal:
         )
 
     def withColumn(self, colName, col):
-        return self.select(parse("*"), parse(col).alias(colName))
+        new_col = parse(col).alias(colName)
+        if any(field.name == colName for field in self.bound_schema.fields):
+            # replace the existing column(s) of that name in place
+            return self.select(*[
+                new_col if field.name == colName else parse(FieldAsExpression(field))
+                for field in self.bound_schema.fields
+            ])
+        return self.select(parse("*"), new_col)
 
     def withColumnRenamed(self, existing, new):
         def mapper(row):
